@@ -44,6 +44,19 @@ theorem c09_history (cfg : Cfg) (susp : Bool) (probes : List Str) (nsvc : Nat) (
     ok (modelTraceS cfg susp probes nsvc [] hist) = true :=
   history_from cfg susp probes nsvc hist hw [] List.nodup_nil
 
+/-- **The timeout asked for is the caller's** (audit C09-2): both the initial SUBSCRIBE and the renewal put the
+    caller's whole timeout on the wire (`int(timeout.total_seconds())`, read from the source), so "the granted
+    timeout" a call returns when the publisher states none is what the publisher was actually asked for. -/
+theorem wire_timeout_is_requested (cfg : Cfg) (svc : Nat) (sid : Str) (t : Int) (h : 0 ≤ t) :
+    wireTimeout (subscribeRequest cfg svc t) = some t ∧ wireTimeout (renewRequest cfg svc sid t) = some t :=
+  ⟨sub_wire cfg svc t h, ren_wire cfg svc t sid h⟩
+
+/-- **Not routed while the UNSUBSCRIBE is in flight** (audit C09-1): every UNSUBSCRIBE of every call arrives at
+    the publisher with its SID already unrouted. -/
+theorem unsubscribe_unrouted_on_arrival (cfg : Cfg) (susp : Bool) (rt : Routing) (c : Call) (rs : List Reaction)
+    (hn : (keys rt).Nodup) (hw : callWF c) : unsubIssuedOk (runCallS cfg susp rt c rs).exch = true :=
+  (judgeFacts_runCallS cfg susp rt c rs hn hw).unsubIssued
+
 /-- the driver's diagnostic walk is the judge: a trace is accepted iff no step is reported -/
 theorem ok_iff_no_first_bad (exp : PyDict Str Nat) (l : List Step) (i : Nat) :
     okFrom exp l = (firstBadFrom exp l i).isNone := by
@@ -51,9 +64,12 @@ theorem ok_iff_no_first_bad (exp : PyDict Str Nat) (l : List Step) (i : Nat) :
   | nil => rfl
   | cons s r ih =>
     simp only [okFrom, firstBadFrom]
-    by_cases h : stepOk exp s = true
-    · simp only [h, Bool.true_and, if_true]; exact ih _ _
-    · simp [h]
+    by_cases hd : stepInDomain s = true
+    · simp only [hd, if_true]
+      by_cases h : stepOk exp s = true
+      · simp only [h, Bool.true_and, if_true]; exact ih _ _
+      · simp [h]
+    · simp [hd]
 
 /-- in the non-suspending model the fallback SUBSCRIBE immediately follows its refused renewal, and an
     unreachable renewal is never followed by a fresh SUBSCRIBE for its service -/
